@@ -107,6 +107,10 @@ fn main() {
                 }
             }
         }
+        "c05child" => {
+            let variant: u64 = args.get(3).and_then(|s| s.parse().ok()).unwrap_or(1);
+            checks::c05::child_main(&args[2], variant);
+        }
         "gencase" => {
             // dev helper: print the explicit case for (check, tier, seed, index); with "--src" render a ProgGen project
             let check = find(&args[2]);
